@@ -10,6 +10,7 @@ package main
 // through the public listener API).  Direct oracles (C05, C11, C09, C02 reader side) in srOracle.
 
 import (
+	"errors"
 	"bytes"
 	"fmt"
 	"io"
@@ -28,9 +29,11 @@ import (
 )
 
 type chunkReader struct {
-	b     []byte
-	sizes []int
-	i     int
+	b          []byte
+	sizes      []int
+	i          int
+	closeFails int // number of Close calls that fail first
+	closes     int
 }
 
 func (c *chunkReader) Read(p []byte) (int, error) {
@@ -52,7 +55,13 @@ func (c *chunkReader) Read(p []byte) (int, error) {
 	c.b = c.b[n:]
 	return n, nil
 }
-func (c *chunkReader) Close() error { return nil }
+func (c *chunkReader) Close() error {
+	c.closes++
+	if c.closes <= c.closeFails {
+		return errors.New("injected source close failure")
+	}
+	return nil
+}
 
 type decListener struct {
 	mu  sync.Mutex
@@ -236,13 +245,14 @@ func srExec(op string, res *Result) string {
 		toV, _ = strconv.Atoi(to)
 		ctx["to"] = toV
 	}
-	r, err := kio.NewReaderWithCtx(&chunkReader{b: stream, sizes: sizes}, ctx)
+	src := &chunkReader{b: stream, sizes: sizes, closeFails: atoi("cfail", 0)}
+	r, err := kio.NewReaderWithCtx(src, ctx)
 	if err != nil {
 		return "ctor-error"
 	}
 	lst := &decListener{}
 	r.AddListener(lst)
-	var outs []string
+	var outs, mops []string
 	var got []byte
 	sawErr, sawEOF, dataAfterErr := false, false, false
 	readerClosed := false
@@ -253,6 +263,7 @@ func srExec(op string, res *Result) string {
 		}
 		switch f[0] {
 		case "r":
+			mops = append(mops, strings.TrimSpace(o))
 			n, _ := strconv.Atoi(f[1])
 			buf := make([]byte, n)
 			var k int
@@ -289,9 +300,16 @@ func srExec(op string, res *Result) string {
 				got = append(got, buf[:k]...)
 			}
 		case "c":
-			r.Close()
+			// a failing wrapped closer is reported by the Close that met it; the Reader is closed
+			// all the same (C17: Read after Close fails, whatever Close returned)
+			if cerr := r.Close(); cerr != nil {
+				outs = append(outs, "c:err")
+				mops = append(mops, "c !s")
+			} else {
+				outs = append(outs, "c:ok")
+				mops = append(mops, "c")
+			}
 			readerClosed = true
-			outs = append(outs, "c:ok")
 		}
 	}
 	sort.Ints(lst.ids)
@@ -363,7 +381,7 @@ func srExec(op string, res *Result) string {
 			mo = append(mo, k+"="+v)
 		}
 	}
-	res.ModelOp = strings.Join(mo, " ") + " ;" + strings.Join(parts[1:], ";")
+	res.ModelOp = strings.Join(mo, " ") + " ; " + strings.Join(mops, " ; ")
 	return strings.Join(outs, " ; ") + " | dec=" + strings.Join(ids, ",")
 }
 
@@ -476,7 +494,18 @@ func srGen(r *rand.Rand, tier string, n int, emit func(op string, tags ...string
 			}
 		}
 		ops = append(ops, fmt.Sprintf("r %d", total+10), "r 10", "r 10", "r 10")
-		emit(fmt.Sprintf("sr bs=%d j=%d hint=%d%s ck=%d chunks=%s frames=%s ; %s", bs, j, hint, rng, []int{0, 32, 64}[r.Intn(3)], chunks, strings.Join(fr, ","), strings.Join(ops, " ; ")), "family:"+fam)
+		cf := ""
+		if r.Intn(6) == 0 {
+			// wrapped source whose Close fails once or twice; Close after a partial Read so that
+			// decoded-but-unread bytes are pending, then Reads and a second Close
+			cf = fmt.Sprintf(" cfail=%d", 1+r.Intn(2))
+			fam += "+closerfail"
+			ops = []string{fmt.Sprintf("r %d", 1+r.Intn(bs)), "c", "r 10", fmt.Sprintf("r %d", bs), "c", "r 10", "c", "r 0"}
+			if r.Intn(3) == 0 {
+				ops = ops[1:]
+			}
+		}
+		emit(fmt.Sprintf("sr bs=%d j=%d hint=%d%s ck=%d%s chunks=%s frames=%s ; %s", bs, j, hint, rng, []int{0, 32, 64}[r.Intn(3)], cf, chunks, strings.Join(fr, ","), strings.Join(ops, " ; ")), "family:"+fam)
 	}
 }
 
@@ -484,7 +513,7 @@ func init() {
 	registerStream(&Stream{
 		Name:     "sr",
 		Watchdog: 60 * time.Second,
-		Rule:     "streams built by the independent container builder (valid NONE/NONE blocks with position-coded data, last block short or full; variants: no end marker, source ending inside a frame, a block failing after the hand-off (bad checksum / bad prologue), an oversize block) read by the real Reader with jobs 1..64, size hint absent/exact/wrong, block range from/to (exhaustive over ranges for 1..12 blocks + random), source delivering short reads, random programs of Read (incl. 0-length) and Close, and four more Reads after the end; distinct_nontrivial = distinct scenarios returning at least one byte",
+		Rule:     "streams built by the independent container builder (valid NONE/NONE blocks with position-coded data, last block short or full; variants: no end marker, source ending inside a frame, a block failing after the hand-off (bad checksum / bad prologue), an oversize block) read by the real Reader with jobs 1..64, size hint absent/exact/wrong, block range from/to (exhaustive over ranges for 1..12 blocks + random), source delivering short reads, random programs of Read (incl. 0-length) and Close, one sixth with a wrapped source whose Close fails (Close after a partial Read, Reads after it, repeated Close), and four more Reads after the end; distinct_nontrivial = distinct scenarios returning at least one byte",
 		Gen:      srGen,
 		Exec:     srExec,
 	})
